@@ -72,7 +72,9 @@ class QuadraticBezier(ArcLengthMixin, Segment):
     def flatten(self, degree=8):
         ss = []
         if self.length < degree:
-            return [Line(self[0], self[2])]
+            chord = Line(self[0], self[2])
+            chord._orig = self
+            return [chord]
         samples = self.sample(self.length / degree)
         for i in range(1, len(samples)):
             line = Line(samples[i - 1], samples[i])
